@@ -250,6 +250,29 @@ example :
       some (true, 1, 7, true) := by
   decide
 
+/-- **Limits of the latch, stated honestly.**  The latch belongs to the entry *object*, and its release
+to the *key*:
+1. a reload clone (new generation, or the self-restore of `RebuildReloadDatapath`) is a new object
+   with a released latch — the same cached answer gets a second refresh request although the one
+   requested from the old object has not ended;
+2. the clean-up of an older refresh of a key releases the latch of whatever entry is stored under the
+   key by then — insert / expire / re-insert while the first refresh is still running yields a third
+   request while the second is in flight.
+Both are how `CloneForReload` and `backgroundRefresh` are written; `refresh_only_when_none_in_flight`
+is exact for histories without these two patterns. -/
+theorem latch_is_per_object_and_released_per_key :
+    (let c := Cfg.normalize true 60 0 []
+     let ops := [Op.insert 0 ['k'] ['a'] 1 1 7 1 0 false, Op.lookup (2 * SEC) ['k'] false, Op.reload c,
+       Op.lookup (3 * SEC) ['k'] false]
+     (run (start c) ops).2.map LRes.view = [none, some (true, 1, 7, true), none, some (true, 1, 7, true)]) ∧
+    (let c := Cfg.normalize true 60 0 []
+     let ops := [Op.insert 0 ['k'] ['a'] 1 1 7 1 0 false, Op.lookup (2 * SEC) ['k'] false,
+       Op.insert (3 * SEC) ['k'] ['a'] 1 0 8 1 0 false, Op.lookup (3 * SEC) ['k'] false,
+       Op.refreshDone (4 * SEC) ['k'], Op.lookup (4 * SEC) ['k'] false]
+     (run (start c) ops).2.map LRes.view =
+       [none, some (true, 1, 7, true), none, some (true, 0, 8, true), none, some (true, 0, 8, true)]) := by
+  refine ⟨by decide, by decide⟩
+
 /-! ### fixed TTL -/
 
 /-- **Fixed TTL, case-insensitively.**  If the last `fixed_domain_ttl` line for a name (compared
